@@ -540,11 +540,3 @@ Example forms_on_Q :
     = Ok [1#4; 3#2].
 Proof. vm_compute. repeat split. Qed.
 
-Print Assumptions grid_spec.
-Print Assumptions pointwise_diagonal.
-Print Assumptions grid_singletons.
-Print Assumptions scalars_eval.
-Print Assumptions grid_err_iff_tuple.
-Print Assumptions grid_err_iff_lists.
-Print Assumptions pointwise_err_iff_grid.
-Print Assumptions grid_value_error_iff.
